@@ -17,7 +17,7 @@
     - [hs = []] is Go's [hash == nil].  Go hashes a leaf as soon as it is written; here every
       hash is (re)computed by [v2_deep_hash] / [v2_hash], which gives the same final hashes.
     - Go panics / error returns are [None]; loops carry explicit fuel. *)
-From IAVL Require Import Bytes Varint Tree.
+From IAVL Require Import Bytes Varint Tree MTree.
 Local Open Scope Z_scope.
 
 (** * 1. The tree algebra *)
@@ -324,7 +324,6 @@ Definition v2_iter_collect (root : option node) (start stop : option bytes) (inc
   end.
 
 (** * 3. The Tree object: versions, leaf sequences, deletes (tree.go) *)
-From IAVL Require Import MTree.
 
 (** a row of the leaf changelog: a written leaf ([leaf] table) or a delete ([leaf_delete]) *)
 Inductive logop := LSet (k v : bytes) | LDel (k : bytes).
@@ -424,3 +423,415 @@ Section V2Machine.
         end
     end.
 End V2Machine.
+
+(** * 4. Persistence: checkpoints, leaf changelog, LoadVersion, pruning *)
+
+(** ** range.go: VersionRange.FindPrevious, binary search.
+    [FPPanic] = index out of range; [FPFuel] = out of fuel. *)
+Inductive fpres := FPVal (v : Z) | FPPanic | FPFuel.
+
+Definition zindex (vs : list Z) (i : Z) : option Z :=
+  if i <? 0 then None else nth_error vs (Z.to_nat i).
+
+Fixpoint fp_loop (fuel : nat) (vs : list Z) (v low high : Z) : fpres :=
+  match fuel with
+  | O => FPFuel
+  | S f =>
+      if low <=? high then
+        let mid := (low + high) / 2 in
+        match zindex vs mid with
+        | None => FPPanic
+        | Some x =>
+            if x =? v then FPVal v
+            else if x <? v then fp_loop f vs v (mid + 1) high
+            else fp_loop f vs v low (mid - 1)
+        end
+      else
+        match zindex vs high with
+        | None => FPPanic
+        | Some x => FPVal x
+        end
+  end.
+
+Definition find_previous (vs : list Z) (v : Z) : fpres :=
+  match vs with
+  | [] => FPVal (-1)
+  | v0 :: _ =>
+      if v <? v0 then FPVal (-1)
+      else fp_loop (S (length vs)) vs v 0 (Z.of_nat (length vs) - 1)
+  end.
+
+(** VersionRange.Last *)
+Definition ckpt_last (vs : list Z) : Z := last vs (-1).
+
+(** ** The database *)
+Record v2db := V2Db {
+  db_ckpts : list Z;                      (* root rows with checkpoint = true, ascending *)
+  db_roots : list (Z * option node);      (* the checkpointed trees (root row, tree_N shards, leaves) *)
+  db_hashes : list (Z * bytes);           (* root table: the root hash of every saved version *)
+  db_log : list (Z * list (Z * logop))    (* leaf / leaf_delete rows by version, (sequence, row) ascending *)
+}.
+
+Definition db_empty : v2db := V2Db [] [] [] [].
+
+(** deepHash collects the leaves whose node-key version is the version being saved *)
+Fixpoint leaf_rows (wv : Z) (t : node) : list (Z * logop) :=
+  match t with
+  | Leaf k v m => if ver m =? wv then [(nonce m, LSet k v)] else []
+  | Inner _ _ _ _ l r => leaf_rows wv l ++ leaf_rows wv r
+  end.
+
+(** ORDER BY sequence *)
+Fixpoint ins_row (r : Z * logop) (l : list (Z * logop)) : list (Z * logop) :=
+  match l with
+  | [] => [r]
+  | x :: rest => if fst r <=? fst x then r :: l else x :: ins_row r rest
+  end.
+Definition sort_rows (l : list (Z * logop)) : list (Z * logop) := fold_right ins_row [] l.
+
+(** the rows SaveVersion writes for the version being saved *)
+Definition v2_changelog (s : v2tree) : list (Z * logop) :=
+  sort_rows ((match vt_root s with
+              | Some n => leaf_rows (vt_version s + 1) n
+              | None => []
+              end) ++ map (fun p => (fst p, LDel (snd p))) (vt_dels s)).
+
+(** shouldCheckpoint: [want] stands for SetShouldCheckpoint and the checkpointMemory rule *)
+Definition v2_should_checkpoint (interval : Z) (want : bool) (ckpts : list Z) (version : Z) : bool :=
+  want || (version =? 1) || ((0 <? interval) && (interval <=? version - ckpt_last ckpts)).
+
+Fixpoint last_opt {A} (l : list A) : option A :=
+  match l with
+  | [] => None
+  | [x] => Some x
+  | _ :: rest => last_opt rest
+  end.
+
+Section V2Persist.
+  Variable H : bytes -> bytes.
+
+  (** SaveVersion with its database writes *)
+  Definition v2_commit (interval : Z) (want : bool) (s : v2tree) (db : v2db)
+    : v2tree * v2db * bytes :=
+    let v := vt_version s + 1 in
+    let ck := v2_should_checkpoint interval want (db_ckpts db) v in
+    let (s', h) := v2t_save H s in
+    (s',
+     V2Db (if ck then db_ckpts db ++ [v] else db_ckpts db)
+          (if ck then db_roots db ++ [(v, vt_root s')] else db_roots db)
+          (db_hashes db ++ [(v, h)])
+          (db_log db ++ [(v, v2_changelog s)]),
+     h).
+
+  (** one row of replayChangelog, with its sequence check *)
+  Definition replay_row (s : v2tree) (row : Z * logop) : option v2tree :=
+    match snd row with
+    | LSet k v =>
+        match v2t_set s k v with
+        | None => None
+        | Some (s', _) => if fst row =? vt_lseq s' then Some s' else None   (* sequence mismatch *)
+        end
+    | LDel k =>
+        match v2t_remove s k with
+        | None => None
+        | Some (s', _) =>
+            match last_opt (vt_dels s') with
+            | None => None                                                  (* index out of range *)
+            | Some d => if fst row =? fst d then Some s' else None          (* sequence delete mismatch *)
+            end
+        end
+    end.
+
+  Fixpoint replay_rows (s : v2tree) (rows : list (Z * logop)) : option v2tree :=
+    match rows with
+    | [] => Some s
+    | row :: rest =>
+        match replay_row s row with
+        | None => None
+        | Some s' => replay_rows s' rest
+        end
+    end.
+
+  (** the rows of one version: at its first row the tree moves to [version-1], sequences and
+      per-version lists are reset *)
+  Definition replay_version (s : v2tree) (e : Z * list (Z * logop)) : option v2tree :=
+    match snd e with
+    | [] => Some s
+    | rows => replay_rows (V2Tree (vt_root s) (fst e - 1) 0 []) rows
+    end.
+
+  Fixpoint replay_log (s : v2tree) (l : list (Z * list (Z * logop))) : option v2tree :=
+    match l with
+    | [] => Some s
+    | e :: rest =>
+        match replay_version s e with
+        | None => None
+        | Some s' => replay_log s' rest
+        end
+    end.
+
+  (** LoadVersion: last checkpoint at or before [v], then the changelog up to [v], then the
+      root-hash check. *)
+  Definition v2_load (db : v2db) (v : Z) : option v2tree :=
+    match find_previous (db_ckpts db) v with
+    | FPVal c =>
+        match lookup c (db_roots db) with
+        | None => None                                   (* root not found *)
+        | Some r =>
+            if c <? v then
+              match lookup v (db_hashes db) with
+              | None => None                             (* root not found *)
+              | Some target =>
+                  match replay_log (V2Tree r c 0 [])
+                          (filter (fun e => (c <? fst e) && (fst e <=? v)) (db_log db)) with
+                  | None => None
+                  | Some s =>
+                      if list_eq_dec N.eq_dec target (v2_compute_hash H (vt_root s)) then
+                        Some (fst (v2t_save H (V2Tree (vt_root s) (v - 1) 0 [])))
+                      else None                          (* root hash mismatch *)
+                  end
+              end
+            else Some (V2Tree r c 0 [])
+        end
+    | _ => None
+    end.
+
+  (** DeleteVersionsTo(n): with [c] the last checkpoint at or before [n], the writer deletes
+      leaf_delete rows with version < c, leaf rows orphaned at or before [c] (all written
+      before [c]), root rows with version < c, and branch orphans recorded at checkpoints
+      <= n (needed only by checkpoints < c).  The model deletes EVERYTHING below [c]. *)
+  Definition v2_prune (db : v2db) (n : Z) : v2db :=
+    match find_previous (db_ckpts db) n with
+    | FPVal c =>
+        if c =? -1 then db
+        else V2Db (filter (fun x => c <=? x) (db_ckpts db))
+                  (filter (fun p => c <=? fst p) (db_roots db))
+                  (filter (fun p => c <=? fst p) (db_hashes db))
+                  (filter (fun p => c <=? fst p) (db_log db))
+    | _ => db
+    end.
+
+  (** a history: per version the writes and the external checkpoint request *)
+  Definition v2_apply (s : v2tree) (o : logop) : option v2tree :=
+    match o with
+    | LSet k v => match v2t_set s k v with Some (s', _) => Some s' | None => None end
+    | LDel k => match v2t_remove s k with Some (s', _) => Some s' | None => None end
+    end.
+
+  Fixpoint v2_apply_all (s : v2tree) (ops : list logop) : option v2tree :=
+    match ops with
+    | [] => Some s
+    | o :: rest =>
+        match v2_apply s o with
+        | None => None
+        | Some s' => v2_apply_all s' rest
+        end
+    end.
+
+  Definition v2_version (interval : Z) (sd : v2tree * v2db) (e : list logop * bool)
+    : option (v2tree * v2db) :=
+    match v2_apply_all (fst sd) (fst e) with
+    | None => None
+    | Some s' => Some (fst (v2_commit interval (snd e) s' (snd sd)))
+    end.
+
+  Fixpoint v2_history (interval : Z) (sd : v2tree * v2db) (hist : list (list logop * bool))
+    : option (v2tree * v2db) :=
+    match hist with
+    | [] => Some sd
+    | e :: rest =>
+        match v2_version interval sd e with
+        | None => None
+        | Some sd' => v2_history interval sd' rest
+        end
+    end.
+End V2Persist.
+
+(** * 5. Snapshots (snapshot.go, export.go) *)
+
+(** a row of a snapshot table: node key and Node.Bytes() *)
+Record srow := SRow {
+  sr_ver : Z; sr_seq : Z; sr_height : Z; sr_size : Z; sr_key : bytes; sr_hash : bytes; sr_val : bytes
+}.
+
+Definition srow_of (t : node) : srow :=
+  match t with
+  | Leaf k v m => SRow (ver m) (nonce m) 0 1 k (hs m) v
+  | Inner k h s m _ _ => SRow (ver m) (nonce m) h s k (hs m) []
+  end.
+
+(** SqliteDb.Snapshot / writeStep: pre-order (NLR) *)
+Fixpoint snapshot_pre (t : node) : list srow :=
+  match t with
+  | Leaf _ _ _ => [srow_of t]
+  | Inner _ _ _ _ l r => srow_of t :: snapshot_pre l ++ snapshot_pre r
+  end.
+
+(** the rows in post-order (LRN), as restorePostOrderStep numbers them *)
+Fixpoint snapshot_post (t : node) : list srow :=
+  match t with
+  | Leaf _ _ _ => [srow_of t]
+  | Inner _ _ _ _ l r => snapshot_post l ++ snapshot_post r ++ [srow_of t]
+  end.
+
+(** MakeNode on a row *)
+Definition leaf_of_row (r : srow) : node := Leaf (sr_key r) (sr_val r) (Meta (sr_ver r) (sr_seq r) (sr_hash r)).
+Definition inner_of_row (r : srow) (l rt : node) : node :=
+  Inner (sr_key r) (sr_height r) (sr_size r) (Meta (sr_ver r) (sr_seq r) (sr_hash r)) l rt.
+
+(** queryStepPreOrder (loadLeaves = true).  Go returns a nil node when the rows run out and
+    dereferences it later (rehashTree): [None].  For a leaf root Go still tries to read two
+    children, which a leaf never shows: not modelled. *)
+Fixpoint import_pre_step (fuel : nat) (rows : list srow) : option (node * list srow) :=
+  match fuel with
+  | O => None
+  | S f =>
+      match rows with
+      | [] => None
+      | r :: rest =>
+          if sr_height r =? 0 then Some (leaf_of_row r, rest)
+          else
+            match import_pre_step f rest with
+            | None => None
+            | Some (l, rest1) =>
+                match import_pre_step f rest1 with
+                | None => None
+                | Some (rt, rest2) => Some (inner_of_row r l rt, rest2)
+                end
+            end
+      end
+  end.
+
+(** queryStepPostOrder over ORDER BY ordinal DESC: node, right, left *)
+Fixpoint import_post_step (fuel : nat) (rows : list srow) : option (node * list srow) :=
+  match fuel with
+  | O => None
+  | S f =>
+      match rows with
+      | [] => None
+      | r :: rest =>
+          if sr_height r =? 0 then Some (leaf_of_row r, rest)
+          else
+            match import_post_step f rest with
+            | None => None
+            | Some (rt, rest1) =>
+                match import_post_step f rest1 with
+                | None => None
+                | Some (l, rest2) => Some (inner_of_row r l rt, rest2)
+                end
+            end
+      end
+  end.
+
+(** what Exporter.Next hands out *)
+Record snode := SNode { sn_key : bytes; sn_val : bytes; sn_ver : Z; sn_height : Z }.
+
+Fixpoint export_post (t : node) : list snode :=
+  match t with
+  | Leaf k v m => [SNode k v (ver m) 0]
+  | Inner k h _ m l r => export_post l ++ export_post r ++ [SNode k [] (ver m) h]
+  end.
+
+Fixpoint export_pre (t : node) : list snode :=
+  match t with
+  | Leaf k v m => [SNode k v (ver m) 0]
+  | Inner k h _ m l r => SNode k [] (ver m) h :: export_pre l ++ export_pre r
+  end.
+
+Section V2Snapshot.
+  Variable H : bytes -> bytes.
+
+  (** rehashTree: branch hashes recomputed bottom-up, leaf hashes trusted *)
+  Fixpoint rehash (t : node) : node :=
+    match t with
+    | Leaf _ _ _ => t
+    | Inner k h s m l r =>
+        let l' := rehash l in
+        let r' := rehash r in
+        Inner k h s (Meta (ver m) (nonce m)
+                       (H (inner_preimage h s (ver m) (hs (nmeta l')) (hs (nmeta r'))))) l' r'
+    end.
+
+  (** ImportSnapshotFromTable: rebuild, rehash, compare the root hash *)
+  Definition import_finish (r : option (node * list srow)) : option node :=
+    match r with
+    | None => None
+    | Some (t, _) =>
+        let t' := rehash t in
+        if list_eq_dec N.eq_dec (hs (nmeta t)) (hs (nmeta t')) then Some t' else None
+    end.
+
+  Definition import_pre (rows : list srow) : option node :=
+    import_finish (import_pre_step (S (length rows)) rows).
+
+  (** [rows] in ordinal order; the query reads them in descending order *)
+  Definition import_post (rows : list srow) : option node :=
+    import_finish (import_post_step (S (length rows)) (rev rows)).
+
+  (** restorePostOrderStep: rebuild a tree from a post-order stream with a stack; node keys
+      are (version, ordinal), sizes and hashes are recomputed.  A branch that cannot take two
+      lower subtrees from the stack is pushed childless by Go (and breaks later): [None]. *)
+  Fixpoint restore_post_loop (ord : Z) (stack : list node) (stream : list snode) : option node :=
+    match stream with
+    | [] => match stack with [t] => Some t | _ => None end
+    | sn :: rest =>
+        if sn_height sn =? 0 then
+          restore_post_loop (ord + 1)
+            (Leaf (sn_key sn) (sn_val sn)
+                  (Meta (sn_ver sn) ord (H (leaf_preimage H (sn_ver sn) (sn_key sn) (sn_val sn)))) :: stack)
+            rest
+        else
+          match stack with
+          | r :: l :: stack' =>
+              if (height r <? sn_height sn) && (height l <? sn_height sn) then
+                let s := size l + size r in
+                restore_post_loop (ord + 1)
+                  (Inner (sn_key sn) (sn_height sn) s
+                         (Meta (sn_ver sn) ord
+                               (H (inner_preimage (sn_height sn) s (sn_ver sn) (hs (nmeta l)) (hs (nmeta r)))))
+                         l r :: stack')
+                  rest
+              else None
+          | _ => None
+          end
+    end.
+
+  Definition restore_post (stream : list snode) : option node := restore_post_loop 0 [] stream.
+
+  (** restorePreOrderStep: recursive descent ([snap.ordinal] advances twice per node) *)
+  Fixpoint restore_pre_step (fuel : nat) (ord : Z) (stream : list snode)
+    : option (node * Z * list snode) :=
+    match fuel with
+    | O => None
+    | S f =>
+        match stream with
+        | [] => None
+        | sn :: rest =>
+            if sn_height sn =? 0 then
+              Some (Leaf (sn_key sn) (sn_val sn)
+                         (Meta (sn_ver sn) ord (H (leaf_preimage H (sn_ver sn) (sn_key sn) (sn_val sn)))),
+                    ord + 2, rest)
+            else
+              match restore_pre_step f (ord + 1) rest with
+              | None => None
+              | Some (l, o1, rest1) =>
+                  match restore_pre_step f o1 rest1 with
+                  | None => None
+                  | Some (r, o2, rest2) =>
+                      let s := size l + size r in
+                      Some (Inner (sn_key sn) (sn_height sn) s
+                                  (Meta (sn_ver sn) ord
+                                        (H (inner_preimage (sn_height sn) s (sn_ver sn)
+                                              (hs (nmeta l)) (hs (nmeta r))))) l r,
+                            o2 + 1, rest2)
+                  end
+              end
+        end
+    end.
+
+  Definition restore_pre (stream : list snode) : option node :=
+    match restore_pre_step (S (length stream)) 0 stream with
+    | Some (t, _, _) => Some t
+    | None => None
+    end.
+End V2Snapshot.
